@@ -68,4 +68,112 @@ Section Index.
     rewrite (first_many_eq A fx false dk p0 fl).
     destruct (first_fold_fields false dk fl p0) as [F1 F2]. rewrite F1, F2. reflexivity.
   Qed.
+
+  (* ---------- all histories (raw events included): the handlers keep it ---------- *)
+  Hypothesis Hfix : fix_index fx = true.
+
+  Lemma push_again_pj (s : server A) p : pj (fst (push_again A fx s p)) = p.
+  Proof. unfold push_again. destruct (push_all_again _ _ _ _). reflexivity. Qed.
+
+  Lemma did_open_idx dk (s : server A) f t : idx_eq (pj s) -> idx_eq (pj (fst (did_open A fx dk s f t))).
+  Proof.
+    intros H. unfold did_open.
+    set (p0 := set_lru A (pj s) (frem f (p_lru (pj s)))).
+    set (s0 := {| pj := p0; cache := aset (cache s) f t; ds := unmark_clean (ds s) f |}).
+    assert (H0 : idx_eq p0) by exact H.
+    assert (H1 : idx_eq (pj (fst (if fmem f (p_files p0) then (s0, [])
+                  else let '(p1, chg) := handle_events A fx dk p0 [(f, KCreated)] in
+                       if chg then push_again A fx s0 p1 else ({| pj := p1; cache := cache s0; ds := ds s0 |}, []))))).
+    { destruct (fmem f (p_files p0)); [exact H0|].
+      pose proof (handle_events_idx dk p0 [(f, KCreated)] Hfix H0) as HE.
+      destruct (handle_events A fx dk p0 [(f, KCreated)]) as [p1 chg]. cbn [fst] in HE.
+      destruct chg; [rewrite push_again_pj; exact HE|exact HE]. }
+    destruct (if fmem f (p_files p0) then (s0, []) else _) as [s1 ps1]. cbn [fst] in H1.
+    destruct (clear_change (ds s1) f). exact H1.
+  Qed.
+
+  Lemma did_change_idx (s : server A) f t : idx_eq (pj s) -> idx_eq (pj (fst (did_change A s f t))).
+  Proof.
+    intros H. unfold did_change. destruct (aget (cache s) f); [|exact H].
+    destruct (is_nil (syn A t)).
+    - destruct (clear_change (ds s) f). exact H.
+    - destruct (insert_change (ds s) f (syn A t)). exact H.
+  Qed.
+
+  Lemma did_save_idx dk (s : server A) f t : idx_eq (pj s) -> idx_eq (pj (fst (did_save A fx dk s f t))).
+  Proof.
+    intros H. unfold did_save. cbn [pj].
+    pose proof (handle_events_idx dk (pj s) [(f, KChanged)] Hfix H) as HE.
+    destruct (handle_events A fx dk (pj s) [(f, KChanged)]) as [p1 chg]. cbn [fst] in HE.
+    set (s0 := {| pj := pj s; cache := aset (cache s) f t; ds := ds s |}).
+    assert (H1 : idx_eq (pj (fst (if chg then push_again A fx s0 p1 else ({| pj := p1; cache := cache s0; ds := ds s0 |}, []))))).
+    { destruct chg; [rewrite push_again_pj; exact HE|exact HE]. }
+    destruct (if chg then push_again A fx s0 p1 else _) as [s1 ps1]. cbn [fst] in H1.
+    destruct (save_push_again (ds s1) f). exact H1.
+  Qed.
+
+  Lemma did_close_idx (s : server A) f : idx_eq (pj s) -> idx_eq (pj (fst (did_close A fx s f))).
+  Proof.
+    intros H. unfold did_close. destruct (clear_change (ds s) f). destruct (in_dir A f); cbn [fst pj].
+    - exact H.
+    - apply remove_file_idx; [exact Hfix|exact H].
+  Qed.
+
+  Lemma did_watched_idx dk (s : server A) evs : idx_eq (pj s) -> idx_eq (pj (fst (did_watched A fx dk s evs))).
+  Proof.
+    intros H. unfold did_watched.
+    destruct (if fix_watched fx then (ds s, []) else _) as [d1 ps1].
+    destruct (is_nil evs); [exact H|]. cbn [pj].
+    pose proof (handle_events_idx dk (pj s) evs Hfix H) as HE.
+    destruct (handle_events A fx dk (pj s) evs) as [p1 chg]. cbn [fst] in HE. destruct chg.
+    - set (s1 := {| pj := pj s; cache := cache s; ds := d1 |}).
+      pose proof (push_again_pj s1 p1) as HP. destruct (push_again A fx s1 p1) as [s2 ps2]. cbn [fst] in *. rewrite HP. exact HE.
+    - exact HE.
+  Qed.
+
+  Lemma step_idx (w : world A) e : idx_eq (pj (sv w)) -> idx_eq (pj (sv (fst (step A fx w e)))).
+  Proof.
+    intros H. destruct e as [f t|f|f t|f t|f t|f|l]; cbn [step].
+    - exact H.
+    - exact H.
+    - pose proof (did_open_idx (disk w) (sv w) f t H) as HH. destruct (did_open A fx (disk w) (sv w) f t). exact HH.
+    - pose proof (did_change_idx (sv w) f t H) as HH. destruct (did_change A (sv w) f t). exact HH.
+    - pose proof (did_save_idx (disk w) (sv w) f t H) as HH. destruct (did_save A fx (disk w) (sv w) f t). exact HH.
+    - pose proof (did_close_idx (sv w) f H) as HH. destruct (did_close A fx (sv w) f). exact HH.
+    - pose proof (did_watched_idx (disk w) (sv w) l H) as HH. destruct (did_watched A fx (disk w) (sv w) l). exact HH.
+  Qed.
+
+  Lemma steps_idx es : forall (w : world A) ps0,
+    idx_eq (pj (sv w)) ->
+    idx_eq (pj (sv (fst (fold_left (fun (wp : world A * list publish) e => let '(w', ps) := step A fx (fst wp) e in (w', snd wp ++ ps))
+                                   es (w, ps0))))).
+  Proof.
+    induction es as [|e es IH]; intros w ps0 H; [exact H|]. cbn [fold_left fst snd].
+    pose proof (step_idx w e H) as HH. destruct (step A fx w e) as [w' ps]. apply IH. exact HH.
+  Qed.
+
+  Lemma act_idx (w : world A) a : idx_eq (pj (sv w)) -> idx_eq (pj (sv (fst (act A fx w a)))).
+  Proof.
+    intros H. destruct a as [f|f t|f|f|l|e]; cbn [act].
+    - destruct (aget (disk w) f); [|exact H]. destruct (aget (ebuf w) f); [exact H|]. apply steps_idx. exact H.
+    - destruct (aget (ebuf w) f); [|exact H]. apply steps_idx. exact H.
+    - destruct (aget (ebuf w) f); [|exact H]. apply steps_idx. exact H.
+    - destruct (aget (ebuf w) f); [|exact H]. apply steps_idx. exact H.
+    - apply steps_idx. exact H.
+    - apply step_idx. exact H.
+  Qed.
+
+  Lemma run_from_idx h : forall (w : world A) ps0,
+    idx_eq (pj (sv w)) -> idx_eq (pj (sv (fst (run_from A fx (w, ps0) h)))).
+  Proof.
+    induction h as [|a h IH]; intros w ps0 H; [exact H|]. unfold run_from. cbn [fold_left fst snd].
+    pose proof (act_idx w a H) as HH. destruct (act A fx w a) as [w' ps]. apply IH. exact HH.
+  Qed.
+
+  (* T1 (C08_index_refines): for every initial disk and every history, raw events included *)
+  Theorem index_refines (dk : amap txt) (h : list (action A)) :
+    p_index (pj (sv (fst (run A fx dk h)))) = p_files (pj (sv (fst (run A fx dk h)))).
+  Proof.
+    unfold run, init_world, init_server. apply run_from_idx. cbn [sv pj]. apply init_idx.
+  Qed.
 End Index.
